@@ -1,5 +1,7 @@
 import families
 from runner import Harness, FULL
+
+RV = FULL + ["-Z", "restrict-vtable"]
 from . import Plan, register, COMMON_TRUSTED
 
 RS_STUB = ["std::hash::RandomState::new -> c10::fixed_random_state (fixed hasher keys; Kani cannot model getrandom)"]
@@ -16,14 +18,14 @@ def plan(ctx):
                               f"one-shot decode({m['k']},{m['r']}) with {len(m['lo'])} original entries (lengths {m['lo']}) and {len(m['lr'])} recovery entries (lengths {m['lr']}), UNBOUNDED symbolic indexes: Err iff a documented precondition is violated, the Err is truthful (variant and fields name something the input really violates), Ok(empty) when all originals are given validly",
                               encodes=["reed_solomon_simd::decode", "ReedSolomonDecoder::new/add_original_shard/add_recovery_shard/decode", "DefaultRateDecoder (new, adds, decode_begin)", "DefaultEngine::new (mask 0)"],
                               bounds="entry counts and lengths concrete per harness; indexes 64-bit symbolic; inputs restricted to 'violates a precondition' or 'all originals given' (success paths that restore shards are outside); unwind 19",
-                              flags=FULL, timeout=1800, mem_gb=10, stubs=RS_STUB, symbolic="every index, shard bytes",
+                              flags=RV, timeout=1500, mem_gb=10, stubs=RS_STUB, symbolic="every index, shard bytes",
                               tiers=("quick", "thorough") if (norec and n % 2 == 0) or m["name"].endswith("o2_2_rnone") else ("thorough",)))
         else:
             hs.append(Harness(f"gen::c10g::{m['name']}", "C10",
                               f"one-shot encode({m['k']},{m['r']}) with original lengths {m['lo']}: returns the truthful Err a streaming ReedSolomonEncoder would (UnsupportedShardCount / TooFew / TooMany / InvalidShardSize / DifferentShardSize with exact fields)",
                               encodes=["reed_solomon_simd::encode", "ReedSolomonEncoder::new/add_original_shard/encode", "DefaultRateEncoder (new, adds, encode_begin)"],
                               bounds="error inputs only (a violation-free input runs a full DefaultRate round: outside); unwind 19",
-                              flags=FULL, timeout=1800, mem_gb=10, stubs=RS_STUB, symbolic="shard bytes",
+                              flags=RV, timeout=1500, mem_gb=10, stubs=RS_STUB, symbolic="shard bytes",
                               tiers=("quick", "thorough") if n % 3 == 0 else ("thorough",)))
     return Plan(hs,
                 assumptions=["DefaultEngine under feature mask 0 with dummy lookup tables (no feasible path of these harnesses executes engine arithmetic)",
